@@ -75,6 +75,29 @@ def Some(x):
     return C("Some", x)
 
 
+# global CPU slots: several checks may run at once (the builders do that all the
+# time); each coqc evaluation takes one of NSLOTS file locks so that the machine
+# is never oversubscribed by case evaluation
+NSLOTS = int(os.environ.get("VERIF_SLOTS", "16"))
+
+
+def _slot():
+    d = os.path.join(BUILD, "slots")
+    os.makedirs(d, exist_ok=True)
+    order = list(range(NSLOTS))
+    random.shuffle(order)
+    for k in order:
+        f = open(os.path.join(d, "slot_%d.lock" % k), "w")
+        try:
+            fcntl.flock(f, fcntl.LOCK_EX | fcntl.LOCK_NB)
+            return f
+        except OSError:
+            f.close()
+    f = open(os.path.join(d, "slot_%d.lock" % order[0]), "w")
+    fcntl.flock(f, fcntl.LOCK_EX)
+    return f
+
+
 # ------------------------------------------------------------------- check
 class Check:
     def __init__(self, pid, tier, seed, level="proof"):
@@ -201,9 +224,13 @@ class Check:
                 f.write("Definition R : list Z := Eval vm_compute in List.map %s [\n" % fn)
                 f.write(";\n".join(shards[k]))
                 f.write("\n].\nPrint R.\n")
-            p = subprocess.run(["coqc", "-Q", COQ, "MV", "-w", "none", path], cwd=d,
-                               stdout=subprocess.PIPE, stderr=subprocess.STDOUT, text=True,
-                               timeout=timeout)
+            slot = _slot()
+            try:
+                p = subprocess.run(["coqc", "-Q", COQ, "MV", "-w", "none", path], cwd=d,
+                                   stdout=subprocess.PIPE, stderr=subprocess.STDOUT, text=True,
+                                   timeout=timeout)
+            finally:
+                slot.close()
             for ext in (".vo", ".glob", ".vok", ".vos"):
                 try:
                     os.remove(os.path.join(d, name + ext))
